@@ -205,7 +205,7 @@ pub fn run_traced(
             if is_store && in_stack_region(addr) {
                 if info.base_reg != Some(SP) {
                     if lim.require_callee_convention {
-                        on(&Event::After { idx, info: &info }, m, &frames);
+                        // the step that leaves the subset is not checked any more
                         on(
                             &Event::LeftSubset("stack written through a register other than sp"),
                             m,
